@@ -221,7 +221,12 @@ def evaluate(ctx, cases):
             ops = copy.deepcopy(c["ops"])
             doc = copy.deepcopy(c["doc"])
             o = core.outcome(lambda: JSONPatch(ops).apply(doc))
-            impl = {"ok": core.canon(o["ok"])} if "ok" in o else {"err": o["err"]}
+            try:
+                impl = {"ok": core.canon(o["ok"])} if "ok" in o else {"err": o["err"]}
+            except core.Cyclic:
+                ctx.violation("the result of a patch must be a JSON value: a copied value is independent of its source (the result contains itself)", c, "cyclic structure", "a tree")
+                cache[id(c)] = ({"err": "cyclic"}, {"err": "cyclic"})
+                continue
             cache[id(c)] = (impl, o)
             ctx.case(repr(c), isinstance(c["doc"], (dict, list)), sample=c)
             ctx.count("ops:" + ("single:" + c["ops"][0]["op"] if len(c["ops"]) == 1 else "sequence"))
